@@ -242,7 +242,7 @@ PROPS['C05'] = {
     'quick_configs': ['default'],
     'thorough_configs': ALL,
     'controls': ['A5.1', 'A5.2'],
-    'floors': {'default': {'A5.1': 3, 'A5.2': 4, 'X2': 4, 'A5.6': 15, 'R3.8': 1}},
+    'floors': {'default': {'A5.1': 3, 'A5.2': 4, 'X2': 2, 'A5.6': 15, 'R3.8': 1}},
     'rule_text': 'one obligation per FAT-mutator call site made on behalf of a FileSystem (must be followed by a counter '
                  'update on every Ok path, using the returned delta), per assignment to a persisted counter inside '
                  'FsInfoSector (must latch dirty), per encoder field, per recount/ dirty-mount / reclaim condition, and per '
@@ -271,7 +271,7 @@ PROPS['C08'] = {
     'quick_configs': ['default'],
     'thorough_configs': ALL,
     'controls': [],
-    'floors': {'default': {'X1': 3, 'X2': 4, 'X3': 8, 'X4': 2, 'R10.2': 1, 'T3b': 1, 'X7': 8, 'X8': 1, 'X9': 1, 'K6': 1}},
+    'floors': {'default': {'X1': 3, 'X2': 3, 'X3': 8, 'X4': 2, 'R10.2': 1, 'T3b': 1, 'X7': 8, 'X8': 1, 'X9': 1, 'K6': 1}},
     'rule_text': 'obligations: the three FAT-entry classification tables (each over the whole raw-value domain, by '
                  'partition walk), one per FAT32 entry test (mask), per format constant and byte predicate, the two '
                  'read-modify-write sites, the skipping rule and the FAT-width table over all 2^32 cluster counts; '
@@ -300,7 +300,7 @@ PROPS['C15'] = {
     'quick_configs': ['default', 'noalloc'],
     'thorough_configs': ALL,
     'controls': ['N1', 'N8'],
-    'floors': {'default': {'N1': 6, 'N3.chars': 1, 'N3.len': 1, 'N6': 1, 'N5': 2, 'N2': 60, 'N5b': 1, 'N7': 1, 'N5c': 1, 'N8b': 1, 'N9': 3, 'N9.pair': 3, 'N5d': 2}},
+    'floors': {'default': {'N1': 6, 'N3.chars': 1, 'N3.len': 1, 'N6': 1, 'N5': 2, 'N2': 60, 'N5b': 1, 'N7': 1, 'N5c': 1, 'N9': 3, 'N9.pair': 3, 'N5d': 2}},
     'rule_text': 'obligations: one per instance of create_file/create_dir/rename (two-state protocol: no unguarded device '
                  'write before a name validator\'s Ok edge), the accepted-character table over all 0x110000 code points, '
                  'the length table over all usize lengths, the accepted long-name sequence numbers, the buffer capacity '
@@ -331,7 +331,7 @@ PROPS['C01'] = {
     'quick_configs': ['default'],
     'thorough_configs': ALL,
     'controls': ['N1', 'N8'],
-    'floors': {'default': {'N1': 6, 'R1.2': 6, 'R1.3': 1, 'R1.5': 6, 'R3.7': 1, 'R1.7': 120, 'R1.8': 1, 'N5b': 1, 'R1.9': 1, 'N8b': 1}},
+    'floors': {'default': {'N1': 6, 'R1.2': 6, 'R1.3': 1, 'R1.5': 6, 'R3.7': 1, 'R1.7': 120, 'R1.8': 1, 'N5b': 1, 'R1.9': 1}},
     'rule_text': 'obligations: N1 instances (shared with C15), one per mutation site of create_file/create_dir/'
                  'rename_internal (must lie on the `name is free` arm), the emptiness guard of remove, the '
                  'publish-before-delete order of rename, and one per intermediate path lookup; non-trivial = dominance or '
@@ -448,7 +448,7 @@ PROPS['C10'] = {
     'quick_configs': ['default'],
     'thorough_configs': ALL,
     'controls': [],
-    'floors': {'default': {'R10.1': 20, 'R10.2': 1, 'R10.3': 1, 'R10.4.hint': 1, 'X4': 3, 'X8': 1, 'X9': 1, 'X7': 8, 'R10.6': 2, 'R10.7': 2}},
+    'floors': {'default': {'R10.1': 20, 'R10.2': 1, 'R10.3': 1, 'R10.4.hint': 1, 'X4': 3, 'X8': 1, 'X9': 1, 'X7': 8, 'R10.6': 2}},
     'rule_text': 'obligations: one per monomorphic instance of a FAT writer (stream type must be the mirrored DiskSlice), '
                  'the two arms of the slice geometry, the two flag decoders, the replicated-write loop, the two '
                  'read-modify-write sites, format_fat and the allocator\'s hint clamp',
